@@ -1,5 +1,6 @@
 import PdshVerif.Base.Hex
 import PdshVerif.Hostlist.Print
+import PdshVerif.Hostlist.PrintRangeMove
 import PdshVerif.Hostlist.PrintSpec
 import PdshVerif.Hostlist.Parse
 import PdshVerif.Hostlist.Probed
@@ -8,7 +9,8 @@ import Driver.Util
 /-! line protocol of the `print` engine (property C14; the C side is the `p*` ops of
     harness/hl_harness.c):   `pdshmodel print model unchanged|fixed [unchanged|fixed]`
     (first switch: D14, hostlist_deranged_string; second: D2/F14-XLOOP, list_push_hostlist; the parser
-    used by `pback` is the probed variant `Cfg.probed` of Hostlist/Probed.lean)
+    used by `pback` is the probed variant `Cfg.probed` of Hostlist/Probed.lean; optional third switch:
+    F14-RANGEMOVE, the record bookkeeping of hostlist_shift_range / hostlist_pop_range)
 
       list NHOSTS NRANGES PRE:LO:HI:WIDTH:SINGLE ...   the current list, as `dump` prints it   -> ok N
       ptext r|d            reference call with a buffer that is large enough   -> RET HEX [= | spec:HEX]
@@ -21,6 +23,7 @@ import Driver.Util
       pcli q|Q             the "-- Target nodes --" line of opt_list (1024-byte buffer)
       pxlist               list_push_hostlist: the text, or `diverge`
       pranges s|p|n        hostlist_shift_range / hostlist_pop_range / hostlist_next_range until NULL: HEX|HEX|.. or none
+      pranges S|P          the first two on the records AS GIVEN (joinable neighbours unjoined): .. [!ub]
 -/
 namespace Driver.PrintDrv
 open PdshVerif PdshVerif.Hostlist PdshVerif.Hostlist.Print
@@ -31,6 +34,7 @@ structure St where
   fixed : Bool
   xfixed : Bool
   rs : List HRange
+  rmfixed : Bool := false
 
 def parseRec (s : String) : Option HRange :=
   match s.splitOn ":" with
@@ -151,6 +155,16 @@ def step (st : St) (line : String) : St × String :=
       let oob := b.oob RANGEBUF
       Hex.encodeChars (content b RANGEBUF).1 ++ (if oob.isEmpty then "" else "!oob")
     (st, if outs.isEmpty then "none" else "|".intercalate outs)
+  | ["pranges", "S"] | ["pranges", "P"] =>
+    -- the same two with their record bookkeeping, on the records as given (F14-RANGEMOVE)
+    let isS := (Driver.words line)[1]? == some "S"
+    let (calls, ub) := if isS then shiftRangeRun st.rmfixed (st.rs.length + 1) st.rs
+      else popRangeRun st.rmfixed (st.rs.length + 1) st.rs
+    let size := if isS then SHIFTRANGEBUF else RANGEBUF
+    let outs := calls.map fun c =>
+      let oob := c.2.oob size
+      Hex.encodeChars (content c.2 size).1 ++ (if oob.isEmpty then "" else "!oob")
+    (st, (if outs.isEmpty then "none" else "|".intercalate outs) ++ (if ub then "!ub" else ""))
   | ["pranges", which] =>
     -- hostlist_shift_range / hostlist_pop_range until NULL: the strings they return, `|`-separated
     -- on the list re-built with hostlist_push_range (joinable neighbours joined), as the harness does
@@ -177,16 +191,22 @@ def main (args : List String) : IO UInt32 := do
   match args with
   | ["model", v] =>
     if ok v then
-      Driver.forLines stdin (⟨v == "fixed", false, []⟩ : St) step
+      Driver.forLines stdin ({ fixed := v == "fixed", xfixed := false, rs := [] } : St) step
       return 0
     else
       IO.eprintln "usage: pdshmodel print model unchanged|fixed [unchanged|fixed]"; return 2
   | ["model", v, x] =>
     if ok v && ok x then
-      Driver.forLines stdin (⟨v == "fixed", x == "fixed", []⟩ : St) step
+      Driver.forLines stdin ({ fixed := v == "fixed", xfixed := x == "fixed", rs := [] } : St) step
       return 0
     else
       IO.eprintln "usage: pdshmodel print model unchanged|fixed [unchanged|fixed]"; return 2
+  | ["model", v, x, r] =>
+    if ok v && ok x && ok r then
+      Driver.forLines stdin ({ fixed := v == "fixed", xfixed := x == "fixed", rs := [], rmfixed := r == "fixed" } : St) step
+      return 0
+    else
+      IO.eprintln "usage: pdshmodel print model unchanged|fixed [unchanged|fixed [unchanged|fixed]]"; return 2
   | _ => IO.eprintln "usage: pdshmodel print model unchanged|fixed [unchanged|fixed]"; return 2
 
 end Driver.PrintDrv
